@@ -35,6 +35,8 @@ def case_tags(case):
         tags = set()
         ast_tags(case['ast'], tags)
         return sorted(tags)
+    if 'model' not in case:
+        return sorted(case.get('tags', []))
     m = case['model']
     tags = set()
     for r in m['rels']:
@@ -69,6 +71,8 @@ def mk_trace(pid, cid, k, case, naming, events, extra=None):
     tid = '%s-%s-n%d' % (pid, cid, k)
     meta = {'hist': case.get('hist', []), 'model': case.get('model', EMPTY_MODEL), 'naming': naming.describe(),
             'tags': case_tags(case)}
+    if 'kind' in case:
+        meta['history'] = {k: case[k] for k in ('kind', 'op', 'seq', 'gen') if k in case}
     if extra:
         meta.update(extra)
     return {'id': tid, 'ev': events}, meta
@@ -99,6 +103,8 @@ def run_case(pid, cid, case, tier, seed):
 
 def select_cases(pid, tier, seed, cases):
     spec = PROPS[pid]
+    if spec.get('prepare'):
+        cases = spec['prepare'](cases, tier, seed)
     cap = spec.get('cap', {}).get(tier)
     if cap and len(cases) > cap:
         rnd = random.Random(seed)
@@ -114,12 +120,15 @@ def coverage(pid, tm):
     for tr, meta in tm:
         for t in meta.get('tags', []):
             tagc[t] = tagc.get(t, 0) + 1
-        if len(meta['model']['feats']) > 1 or meta['model']['ctcs'] or meta.get('ast'):
-            distinct.add(repr(meta['hist']) + repr(meta.get('ast')) + repr(meta['naming']['map']))
+        if len(meta['model']['feats']) > 1 or meta['model']['ctcs'] or meta.get('ast') or meta.get('history') \
+                or meta.get('nontrivial'):
+            distinct.add(repr(meta['hist']) + repr(meta.get('ast')) + repr(meta.get('history'))
+                         + repr(meta.get('key')) + repr(meta['naming']['map']))
     return {'nontrivial': len(distinct),
             'rule': 'cases are the reachable states of the TLC builder state machine (spec/FM.tla) '
                     'under the family constants; a case is non-trivial when its model has more than '
-                    'one feature or a constraint; distinct = distinct (build history, naming) pairs',
+                    'one feature or a constraint (for history families: every generated call sequence; for '
+                    'tree families of constraints: every tree); distinct = distinct (case, naming) pairs',
             'detail': {'cases_with_tag': tagc},
             'sampled': bool(PROPS[pid].get('_sampled'))}
 
@@ -180,3 +189,117 @@ def script_c18(case, naming, tier, seed):
     ctc = Constraint('c1', AST(build_node(case['ast'], naming)))
     ret = observe.classify(ctc, naming)
     return [{'a': 'Classify', 'args': {'ast': case['ast']}, 'out': 'value', 'ret': ret}], {'ast': case['ast']}
+
+
+# ---------------------------------------------------------------------------
+METRIC_METHODS = [
+    'features', 'abstract_features', 'concrete_features', 'leaf_features', 'compound_features',
+    'concrete_compound_features', 'concrete_leaf_features', 'abstract_compound_features',
+    'abstract_leaf_features', 'tree_relationships', 'root_feature', 'top_features', 'solitary_features',
+    'grouped_features', 'mandatory_features', 'optional_features', 'feature_groups', 'alternative_groups',
+    'or_groups', 'mutex_groups', 'cardinality_groups', 'branching_factor', 'min_children_per_feature',
+    'max_children_per_feature', 'avg_children_per_feature', 'depth_tree', 'max_depth_tree', 'mean_depth_tree',
+    'median_depth_tree', 'cross_tree_constraints', 'simple_constraints', 'requires_constraints',
+    'excludes_constraints', 'complex_constraints', 'pseudo_complex_constraints', 'strict_complex_constraints',
+    'min_constraints_per_feature', 'max_constraints_per_feature', 'avg_constraints_per_feature',
+    'extra_constraint_representativeness']
+
+
+@prop('C17', ['Tree', 'DecorAbs', 'TreeCtc'], naming_matters=False,
+      assumptions=['constraint listings are compared with the per-constraint predicates of the model (judged by C18)'])
+def script_c17(case, naming, tier, seed):
+    b, ev = load_event(case, naming)
+    obj = observe.new_op('metrics')
+    events = [ev, observe.exec_metrics(obj, 1, b.model, naming)]
+    if len(case['hist']) % 3 == 0:      # the same object analyses the model again
+        events.append(observe.exec_metrics(obj, 1, b.model, naming, seqno=2))
+    # one filtered report per case: the filter rotates over singletons, pairs and a random subset
+    rnd = random.Random(hash(repr(case['hist'])) ^ seed)
+    k = rnd.randrange(4)
+    if k == 0:
+        flt = []
+    elif k == 1:
+        flt = [rnd.choice(METRIC_METHODS)]
+    elif k == 2:
+        flt = list(METRIC_METHODS)
+    else:
+        flt = rnd.sample(METRIC_METHODS, rnd.randrange(2, 12))
+    events.append(observe.exec_metrics(observe.new_op('metrics'), 2, b.model, naming, flt=flt))
+    return events, None
+
+
+# ---------------------------------------------------------------------------
+# Histories on operation objects (C19)
+POOL_PICKS = [
+    lambda t, m: 'root-only' in t,
+    lambda t, m: {'mandatory', 'optional', 'or'} <= set(t) and len(m['feats']) == 5,
+    lambda t, m: 'alternative' in t and 'ctc' in t and 'optional' in t and m['ctcs'][0]['ast']['op'] == 'IMPLIES',
+    lambda t, m: {'mutex', 'cardinality'} <= set(t),
+    lambda t, m: len(m['rels']) == 4 and all(len(r['kids']) == 1 for r in m['rels'])
+    and len({r['owner'] for r in m['rels']}) == 4 and 'optional' in t and 'mandatory' in t,
+    lambda t, m: 'attr' in t and len(m['feats']) == 3 and sum(1 for f in m['feats'] if f['attrs']) == 1
+    and 'optional' in t,
+]
+
+
+def prepare_hist(cases, tier, seed):
+    pool = []
+    models = [(cid, c) for cid, c in cases if 'model' in c]
+    for pick in POOL_PICKS:
+        for cid, c in models:
+            if pick(case_tags(c), c['model']):
+                pool.append(c)
+                break
+        else:
+            raise RuntimeError('no pool model for pick %d' % len(pool))
+    out = []
+    for cid, c in cases:
+        if 'model' in c:
+            continue
+        if c['kind'] == 'exec' and not c['seq']:
+            continue
+        c = dict(c, pool=pool, tags=['hist:' + c['kind'], 'op:' + c['op'], 'len:%d' % len(c['seq'])]
+                 + (['shape:' + c['gen']['shape']] if c['kind'] == 'genattr' else []))
+        out.append((cid, c))
+    return out
+
+
+def _exec_any(obj, objid, op, model, naming, builder, seqno):
+    if op == 'metrics':
+        return observe.exec_metrics(obj, objid, model, naming, seqno=seqno)
+    fobj = None
+    if op == 'ancestors':
+        fobj = builder.objs[sorted(builder.objs, key=lambda n: int(n[1:]))[-1]]
+    return observe.exec_op(obj, objid, op, model, naming, fobj, seqno=seqno)
+
+
+@prop('C19', ['Tree', 'TreeCtc', 'DecorAttr', 'Hist'], naming_matters=False, prepare=prepare_hist,
+      assumptions=['"depends only on its argument" is checked as: over one history, equal (operation, argument, model) '
+                   'give equal results whichever object is used and whatever it analysed before'])
+def script_c19(case, naming, tier, seed):
+    pool = case['pool']
+    events = []
+    if case['kind'] == 'genattr':
+        g = case['gen']
+        b, ev = load_event(pool[g['model'] - 1], naming)
+        events.append(ev)
+        events.append(observe.gen_attr(b.model, naming, 'a1', g['shape'], g['leaves'], g['seed']))
+        if g['shape'] != 'unset':   # a second generation on the same model: every feature already has it
+            events.append(observe.gen_attr(b.model, naming, 'a1', g['shape'], False, g['seed'] + 1))
+        return events, None
+    op = case['op']
+    built = {}
+    for i in sorted(set(case['seq'])):                       # baseline: a fresh object per model
+        b, ev = load_event(pool[i - 1], naming)
+        built[i] = (b, ev)
+        events.append(ev)
+        events.append(_exec_any(observe.new_op(op), 100 + i, op, b.model, naming, b, 0))
+    shared = observe.new_op(op)                              # the history on ONE object
+    other_kind = 'atomic' if op != 'atomic' else 'core'
+    other = observe.new_op(other_kind)
+    for k, i in enumerate(case['seq']):
+        b, ev = built[i]
+        events.append(dict(ev))
+        events.append(_exec_any(other, 2, other_kind, b.model, naming, b, k + 1))
+        events.append(_exec_any(shared, 1, op, b.model, naming, b, k + 1))
+    return events, None
